@@ -5,6 +5,7 @@ import (
 	"fmt"
 	"io"
 	"io/fs"
+	"runtime"
 	"strings"
 	"sync"
 	"sync/atomic"
@@ -30,10 +31,12 @@ import (
 // interrupt), and every enclosing evaluation / REPL level goes on: it still delivers its own
 // remaining outputs, runs the next line, and the session ends normally.
 //
-// There is no wall clock oracle on the good path: the harness waits for the end of the
-// evaluation (a channel); "never ended" is concluded when that did not happen within a
-// patience that is 3-4 orders of magnitude above what a cancellation takes, and only if a
-// second run with a much longer patience agrees.
+// No wall clock decides on the good path: the harness waits for the end of the evaluation
+// (a channel). "Not cancelled" is concluded (a) without any clock when the goroutine that
+// runs the evaluation is itself the caller of the read that never returns - it cannot end
+// before the file is let go, whatever happens to its context - or (b) when the evaluation
+// did not end within a patience that is 3-4 orders of magnitude above what a cancellation
+// takes, and a second run with a much longer patience agrees.
 
 type BlockCase struct {
 	Kind       string `json:"kind"`          // "blocked-read"
@@ -92,7 +95,32 @@ type blockState struct {
 	reads     int
 	seeks     int
 	eventRead int
-	afterRead int // reads issued after the one that blocks
+	afterRead int    // reads issued after the one that blocks
+	evalG     string // the goroutine that runs the evaluation (Interp.Main / the iterator's Next)
+	readG     string // the goroutine that called the read that blocks
+}
+
+// goid is the number of the calling goroutine as the runtime prints it
+func goid() string {
+	var b [64]byte
+	f := strings.Fields(string(b[:runtime.Stack(b[:], false)]))
+	if len(f) > 1 {
+		return f[1]
+	}
+	return "?"
+}
+
+func (st *blockState) evaluatingHere() {
+	st.mu.Lock()
+	st.evalG = goid()
+	st.mu.Unlock()
+}
+
+// evalInsideRead: the evaluation's own goroutine sits in the blocking read
+func (st *blockState) evalInsideRead() bool {
+	st.mu.Lock()
+	defer st.mu.Unlock()
+	return st.fired && st.delivered && st.evalG != "" && st.evalG == st.readG
 }
 
 type blockFile struct {
@@ -130,6 +158,7 @@ func (f *blockFile) Read(p []byte) (int, error) {
 	}
 	st.fired = true
 	st.eventRead = st.reads
+	st.readG = goid()
 	st.mu.Unlock()
 	// The evaluation is inside this call and there is no data: the interrupt arrives now.
 	st.o.mu.Lock()
@@ -236,6 +265,7 @@ type blockObs struct {
 	fired     bool // the input was read up to the blocking call
 	delivered bool // the interrupt goroutine took the token while the evaluation was in that call
 	hung      bool // the evaluation had not ended when the patience was over (the read still blocked)
+	inside    bool // ... it could not: its own goroutine is the one inside the read that never returns
 	stuck     bool // ... nor after the read was let go
 	eventRead int
 	reads     int
@@ -344,6 +374,7 @@ func runBlockedAPI(c BlockCase) (obs blockObs) {
 	done := make(chan []any, 1)
 	go func() {
 		var vs []any
+		st.evaluatingHere()
 		pv, stack := core.Protect(func() {
 			it, err := i.Eval(context.Background(), nil, prog, interp.EvalOpts{})
 			if err != nil {
@@ -358,11 +389,27 @@ func runBlockedAPI(c BlockCase) (obs blockObs) {
 		}
 		done <- vs
 	}()
+	patience := time.After(time.Duration(c.PatienceMs) * time.Millisecond)
+	ended := false
 	select {
 	case obs.innerVals = <-done:
-	case <-time.After(time.Duration(c.PatienceMs) * time.Millisecond):
-		// never without the interrupt having been taken? then the case is void, not a verdict
+		ended = true
+	case <-st.inRead:
+		// the interrupt was taken; the evaluation is in the read
+		if c.Stay && st.evalInsideRead() {
+			obs.hung, obs.inside = true, true
+		} else {
+			select {
+			case obs.innerVals = <-done:
+				ended = true
+			case <-patience:
+				obs.hung = true
+			}
+		}
+	case <-patience:
 		obs.hung = true
+	}
+	if !ended {
 		release()
 		select {
 		case obs.innerVals = <-done:
@@ -442,6 +489,7 @@ func runBlockedMain(c BlockCase) (obs blockObs) {
 	done := make(chan error, 1)
 	go func() {
 		var e error
+		st.evaluatingHere()
 		pv, stack := core.Protect(func() { e = i.Main(context.Background(), o.Stdout(), "testversion") })
 		if pv != nil {
 			lastBlockStack.Store(stack)
@@ -449,12 +497,27 @@ func runBlockedMain(c BlockCase) (obs blockObs) {
 		}
 		done <- e
 	}()
+	patience := time.After(time.Duration(c.PatienceMs) * time.Millisecond)
 	finished := false
 	select {
 	case <-ended: // repl: the level asked for its next line
 	case obs.repl.err = <-done:
 		finished = true
-	case <-time.After(time.Duration(c.PatienceMs) * time.Millisecond):
+	case <-st.inRead:
+		if c.Stay && st.evalInsideRead() {
+			obs.hung, obs.inside = true, true
+			release()
+		} else {
+			select {
+			case <-ended:
+			case obs.repl.err = <-done:
+				finished = true
+			case <-patience:
+				obs.hung = true
+				release()
+			}
+		}
+	case <-patience:
 		obs.hung = true
 		release()
 	}
@@ -497,6 +560,8 @@ func judgeBlocked(c BlockCase, o blockObs) (bad string, void string) {
 		return "", "the evaluation never read the input to the blocking call"
 	case !o.delivered:
 		return "", "nobody took the interrupt while the evaluation was in the read"
+	case o.inside:
+		return fmt.Sprintf("not-cancelled: the interrupt was taken while the evaluation was in %s, which never returns; the goroutine running the evaluation is itself the caller of that read, so the evaluation cannot end and did not (it ended when the read was let go)", where), ""
 	case o.hung:
 		return fmt.Sprintf("not-cancelled: the interrupt was taken while the evaluation was in %s; %d ms later the evaluation still had not ended (it ended when the read was let go)", where, c.PatienceMs), ""
 	}
@@ -541,6 +606,18 @@ func judgeBlocked(c BlockCase, o blockObs) (bad string, void string) {
 	return "", ""
 }
 
+// blockClass is the verdict class of a judgement; a panic is classed by its message
+func blockClass(bad string) string {
+	if strings.HasPrefix(bad, "panic:") {
+		m := bad[strings.LastIndex(bad, "panic: ")+len("panic: "):]
+		if j := strings.Index(m, " ["); j >= 0 {
+			m = m[:j]
+		}
+		return "panic[" + m + "]"
+	}
+	return strings.SplitN(bad, ":", 2)[0]
+}
+
 func blockedCases(r *core.Run) []BlockCase {
 	heads := core.Pick(r, []int{0, 7, 5000}, []int{0, 1, 7, 511, 512, 513, 5000, 70000})
 	var cs []BlockCase
@@ -576,8 +653,8 @@ func blockedCases(r *core.Run) []BlockCase {
 func blockedReads(r *core.Run) {
 	cs := blockedCases(r)
 	var n int64
-	confirmedHang := false
-	violated := map[string]bool{} // mode:file with a violation in this process
+	confirmed := map[string]bool{} // signatures reproduced in this process
+	slowHang := map[string]bool{}  // mode:file:via in which a hang was concluded from the patience
 	for idx, c := range cs {
 		if r.ShardN > 1 && int64(idx)%int64(r.ShardN-1) != int64(r.ShardIdx-1) {
 			continue
@@ -587,9 +664,9 @@ func blockedReads(r *core.Run) {
 			return
 		}
 		key := c.Mode + ":" + c.File + ":" + c.Via
-		if violated[key] {
+		if slowHang[key] && c.Stay {
 			// the same finding again would cost the patience each time
-			r.Count("blocked_read_cases_skipped_after_a_violation_of_the_same_kind", 1)
+			r.Count("blocked_read_cases_skipped_after_a_hang_of_the_same_kind", 1)
 			continue
 		}
 		obs := runBlocked(c)
@@ -601,6 +678,7 @@ func blockedReads(r *core.Run) {
 			continue
 		}
 		r.Count("blocked_read_interrupts_taken_inside_the_read", 1)
+		r.Count("blocked_read_interrupts_taken_inside_the_read:"+c.Mode, 1)
 		r.Count("blocked_read_input_reads", int64(obs.reads))
 		r.Count("blocked_read_input_seeks", int64(obs.seeks))
 		if obs.eventRead > 1 {
@@ -608,26 +686,27 @@ func blockedReads(r *core.Run) {
 		}
 		if c.Stay {
 			r.Count("blocked_read_read_never_returns", 1)
+			if !obs.hung {
+				r.Count("blocked_read_evaluation_ended_while_the_read_was_still_blocked", 1)
+			}
 		}
 		if bad != "" {
-			class := strings.SplitN(bad, ":", 2)[0]
-			sig := "blocked-read:" + class + ":" + key
-			if confirmedHang && obs.hung {
-				// a hang verdict was reproduced with the long patience in this process already
-				violated[key] = true
-				r.Violate(sig, fmt.Sprintf("%+v: %s", c, bad), c)
-				continue
+			sig := "blocked-read:" + blockClass(bad) + ":" + key
+			r.Count("blocked_read_verdicts:"+blockClass(bad), 1)
+			if confirmed[sig] {
+				continue // core folds by signature
 			}
 			// classify before believing: again, with a much longer patience and settle time
 			c2 := c
 			c2.PatienceMs, c2.SettleMs = 20000, 1500
 			obs2 := runBlocked(c2)
 			if bad2, _ := judgeBlocked(c2, obs2); bad2 != "" {
-				violated[key] = true
-				if obs2.hung {
-					confirmedHang = true
+				sig2 := "blocked-read:" + blockClass(bad2) + ":" + key
+				confirmed[sig2] = true
+				if obs2.hung && !obs2.inside {
+					slowHang[key] = true
 				}
-				r.Violate("blocked-read:"+strings.SplitN(bad2, ":", 2)[0]+":"+key, fmt.Sprintf("%+v: %s", c2, bad2), c2)
+				r.Violate(sig2, fmt.Sprintf("%+v: %s", c2, bad2), c2)
 			} else {
 				r.Inconclusive(fmt.Sprintf("blocked read %+v: %s, not with patience %d ms / settle %d ms", c, bad, c2.PatienceMs, c2.SettleMs))
 			}
